@@ -54,7 +54,7 @@ Definition xrep_step (mf : mqfix) (s : xrep) (o : pop) : xrep * list pout :=
       else let '(s1, outs) := xrep_route s m in (s1, Complete a E_OK None :: outs)
   | PRecv _ a nb =>
       if nb_refused mf nb (mq_get_waits (xp_urq s)) then (s, [Complete a E_AGAIN None])
-      else let '(q, ev) := mq_get (xp_urq s) a in (xp_set_urq s q, map urq_out ev)
+      else let '(q, ev) := mq_get (mf_getput mf) (xp_urq s) a in (xp_set_urq s q, map urq_out ev)
   | PCancel a rv =>
       let ur := xp_urq s in
       if has_id a (mq_getq ur)
